@@ -367,3 +367,6 @@ def run(ctx):
     orientation_rule(ctx)
     rigid_rule(ctx)
     measure_rule(ctx)
+    from .. import indexspace
+
+    indexspace.rule(ctx, "R8.6")
